@@ -61,6 +61,22 @@ def enc_target(t):
     return ",".join(out)
 
 
+def rnd_real(rng):
+    """a real as a number of 256ths: exact quarters (as before), dyadics k/8, k/16, k/128, k/256 (exact
+    decimal text of at most 8 fraction digits, integer part below 10^6) and neighbours that differ only
+    beyond the second decimal"""
+    r = rng.random()
+    if r < 0.4:
+        return 64 * rng.choice([rng.randrange(-4000, 4000), 10, -6, 1, 3, 4, 0, 2 ** 30 + 1, -(2 ** 29) - 3])
+    if r < 0.8:
+        den = rng.choice([8, 16, 128, 256])
+        return (256 // den) * rng.randrange(-den * 1000, den * 1000)
+    if r < 0.9:
+        return rng.choice([288, 289, 256, 257, 258, 640, 641, -288, -289, 2, 1, 32, 255, 256 * 999999 + 255])
+    base = 256 * rng.randrange(-50, 50) + rng.choice([0, 32, 64, 128])
+    return base + rng.choice([0, 1, 2, 3])
+
+
 def rnd_scalar(rng, allow_real=True, simple_str=False):
     r = rng.random()
     if r < 0.08:
@@ -76,8 +92,7 @@ def rnd_scalar(rng, allow_real=True, simple_str=False):
         z = rng.choice([-1, -3, 5, -rng.randrange(1, 1000), rng.randrange(1000), -9223372036854775807, 9223372036854775807, -4294967297])
         return "4,%d" % z
     if r < 0.70 and allow_real:
-        q = rng.choice([rng.randrange(-4000, 4000), 10, -6, 1, 3, 4, 0, 2 ** 30 + 1, -(2 ** 29) - 3])
-        return "5,%d" % q
+        return "5,%d" % rnd_real(rng)
     if simple_str:
         s = rng.choice(["x", "ab", "1", "2", "k1", "true", "null", "Zz9"])
         return "6," + enc_str(s_units(s))
@@ -311,7 +326,7 @@ def run_check(prop, prop_v, tier, gen, what, rule, extra_assumptions=()):
     checker = "cd coq && make %s  (coqc 8.16.1, full .vo build) ; coqc -Q . Qv %s for Print Assumptions" % (prop_v + "o", prop_v)
     tb = vlib.TRUSTED_BASE_COMMON + [
         "tools/gentables_value.cpp (enum values, JSON keywords)",
-        "modelled: Include/Value.hpp (Value<char>) as patched by findings/D12,D17,D29,D40,D42,D43,D44; objects at the slot-list level that C13 proves for HArray; string->number and real->text only on the exact-quarter / canonical-numeral class (C09/C10 own the rest); JSON escaping compared as a text skeleton (C08 owns the escaper)",
+        "modelled: Include/Value.hpp (Value<char>) as patched by findings/D12,D17,D29,D40,D42,D43,D44; objects at the slot-list level that C13 proves for HArray; real->text on dyadics q/256 (at most 8 fraction digits, exact), string->number on canonical numerals with .25/.5/.75 fractions (C09/C10 own the rest); JSON escaping compared as a text skeleton (C08 owns the escaper)",
     ]
 
     exe, msg = vlib.build_cpp("drv_value", "drv_value.cpp")
@@ -444,7 +459,7 @@ def check(tier):
     return run_check(
         PROP, PROP_V, tier, gen_cases,
         "the trace of public reads differs from the abstract JSON document specification (run_spec)",
-        "seeded random histories of 1..50 operations (23 operation families, every overload variant) over 3 variables and their members up to depth 3, keys incl. empty / NUL / quote, payloads of every kind incl. 64-bit extremes, exact-quarter reals and numeric / keyword strings; after every step all three variables are dumped through the public getters and Stringify; every READ additionally calls the getters that each kind answers with nothing (GetValue by index / key / view, First, Last, GetKey, SetKeyCharAndLength, CopyKeyByIndexTo, StringStorage, GetStringView, Length on kinds they do not apply to), the non-const GetString / GetObject / GetArray overloads and the three routes to the JSON text (Stringify(stream), the String-returning Stringify(precision), operator<<) -- these are overloads or alternative routes of observations the model already predicts, so they are checked for agreement with those (a disagreement prints '!tag' into the trace, which the model never prints); non-trivial = has a two-value operation, removal or compress")
+        "seeded random histories of 1..50 operations (23 operation families, every overload variant) over 3 variables and their members up to depth 3, keys incl. empty / NUL / quote, payloads of every kind incl. 64-bit extremes, reals that are exact dyadics with at most 8 fraction bits (k/4, k/8, k/16, k/128, k/256; integer part below 10^6 for the fine ones; pairs that differ only beyond the second decimal) and numeric / keyword strings; after every step all three variables are dumped through the public getters and Stringify; every READ additionally calls the getters that each kind answers with nothing (GetValue by index / key / view, First, Last, GetKey, SetKeyCharAndLength, CopyKeyByIndexTo, StringStorage, GetStringView, Length on kinds they do not apply to), the non-const GetString / GetObject / GetArray overloads and the three routes to the JSON text (Stringify(stream), the String-returning Stringify(precision), operator<<) -- these are overloads or alternative routes of observations the model already predicts, so they are checked for agreement with those (a disagreement prints '!tag' into the trace, which the model never prints); non-trivial = has a two-value operation, removal or compress")
 
 
 def replay(path):
